@@ -11,12 +11,20 @@ VERUS = {
                     (r"clause: .*sync_seqn", ["C04", "C14"]),
                 ]},
     "v2_store_commit": {"template": "units/verus/v2_store_commit.rs.tmpl", "rlimit": 30},
+    "v3_commit_entry": {"template": "units/verus/v3_commit_entry.rs.tmpl", "rlimit": 30,
+                        "scenarios": {
+                            "FinishedSession::try_commit_nonblocking": "c12_stale_nonblocking",
+                            "Overlay::commit": "c12_rejected_overlay",
+                            "Overlay::try_commit_nonblocking": "c12_rejected_overlay",
+                        }},
 }
 
 KANI = {}
 
 PROPERTIES = {
     "C04": {"verus": ["v1_sync"], "kani": [], "level": "proof",
+            "explanation": "", "assumptions": []},
+    "C12": {"verus": ["v3_commit_entry"], "kani": [], "level": "proof",
             "explanation": "", "assumptions": []},
     "C14": {"verus": ["v1_sync", "v2_store_commit"], "kani": [], "level": "proof",
             "explanation": "", "assumptions": []},
